@@ -101,6 +101,36 @@ def rule_acceptance(repo, rep):
             'prior' % (sdef_name, ast.unparse(v) if v else '?'))
 
 
+def rule_stopping(repo, rep):
+  R = 'R-GUARD:lsml-stopping-criteria'
+  rep.rule(R, 'the main loop is left early only on the documented criteria: '
+           'gradient norm below tol, or no improving step (M_best is None)')
+  f = repo.get_func('lsml._BaseLSML._fit')
+  loops = [n for n in ast.walk(f.node) if isinstance(n, ast.For) and
+           'max_iter' in ast.unparse(n.iter)]
+  if len(loops) != 1:
+    rep.unknown(R, 'lsml._BaseLSML._fit', site(f), 'main loop not found')
+    return
+  main = loops[0]
+  inner = [n for n in ast.walk(main) if isinstance(n, (ast.For, ast.While))
+           and n is not main]
+  for b in ast.walk(main):
+    if not isinstance(b, (ast.Break, ast.Return)):
+      continue
+    if any(b in list(ast.walk(i)) for i in inner):
+      continue
+    conds = astutil.path_condition(main, b)
+    allowed = {'grad_norm < self.tol', 'M_best is None',
+               'self.tol > grad_norm', 'grad_norm <= self.tol'}
+    if conds and set(conds) <= allowed:
+      rep.derived(R, 'lsml._BaseLSML._fit:exit(%s)' % ','.join(conds),
+                  site(f, b))
+    else:
+      rep.refuted(R, 'lsml._BaseLSML._fit:exit(%s)' % ','.join(conds),
+                  site(f, b), 'the solver also stops under %s: the result '
+                  'need not be stationary' % conds)
+
+
 def rule_spd_floor(repo, rep):
   R = 'R-FORM:lsml-spd-floor'
   rep.rule(R, 'every candidate metric is V Diag(max(w, eps)) V^T with '
@@ -273,9 +303,16 @@ def rule_formulas(repo, rep):
       'np.sum(metric * prior_inv) - sign * logdet',
       'np.trace(metric.dot(prior_inv)) - sign * logdet',
       'np.sum(metric * prior_inv) - logdet')
+  rtxt = ast.unparse(reg[0]) if reg else ''
+  wrong = 'np.trace(metric * prior_inv)' in rtxt or \
+      'np.trace(prior_inv * metric)' in rtxt or \
+      'np.sum(metric.dot(prior_inv))' in rtxt
   rep.add(R, 'lsml._BaseLSML._total_loss:regulariser', 'derived' if okr else
-          'unknown', site(ft), '' if okr else 'regulariser %s not recognised'
-          % (ast.unparse(reg[0]) if reg else None))
+          'refuted' if wrong else 'unknown', site(ft),
+          '' if okr else ('regulariser %s is not tr(M M0^-1) - logdet M '
+                          '(trace of the element-wise product / sum of the '
+                          'matrix product)' % rtxt) if wrong else
+          'regulariser %s not recognised' % rtxt)
   # gradient
   d0 = [v for (n, v) in guards.assignments(fg.node, 'dMetric')
         if v is not None]
@@ -323,6 +360,7 @@ def rule_formulas(repo, rep):
 
 def check(repo, rep, tier):
   rule_acceptance(repo, rep)
+  rule_stopping(repo, rep)
   rule_spd_floor(repo, rep)
   rule_loss_gradient_inputs(repo, rep)
   rule_formulas(repo, rep)
